@@ -1650,6 +1650,8 @@ class Bits:
             group_chars2 = Bits._chars_per_group(bits_per_group, name2)
             # The number of characters that get added when we add an extra group (after the first one)
             total_group_chars = group_chars1 + group_chars2 + len(sep) + len(sep) * bool(group_chars2)
+            if total_group_chars == 0:
+                raise ValueError(f"Can't use Dtype '{dtype1}' in pp() without a separator as it has no printable width.")
             width_excluding_offset_and_final_group = width - offset_width - group_chars1 - group_chars2 - len(
                 format_sep) * bool(group_chars2)
             width_excluding_offset_and_final_group = max(width_excluding_offset_and_final_group, 0)
